@@ -18,8 +18,12 @@ def body(c):
     for it in issues:
         c.issue(it)
     c.add_part("vfiles_c06", stats)
-    c.cov["traces_validated_against_impl"] = stats["episodes"]
-    c.cov["evaluations"] = stats["cases"]
+    xissues, xstats = vfiles.run_ext(c, exe, c.tier, c.seed, "C06")
+    for it in xissues:
+        c.issue(it)
+    c.add_part("vfiles_grammar_and_filetype", xstats)
+    c.cov["traces_validated_against_impl"] = stats["episodes"] + xstats["episodes"]
+    c.cov["evaluations"] = stats["cases"] + xstats["episodes"]
     c.cov["distinct_nontrivial"] = stats["distinct_nontrivial"]
     c.cov["exhaustive"] = False
     c.cov["rule"] = (
@@ -35,10 +39,17 @@ def body(c):
         "and the loaded object's projection are validated event by event against "
         "FileFmtTrace.  distinct_nontrivial counts episodes with pairwise "
         "different event sequences in which a file was written, read by the "
-        "independent reader and loaded back (%d files read, %d loads compared)."
+        "independent reader and loaded back (%d files read, %d loads compared).  "
+        "In addition FileFmtStickMC model-checks the file-type memory of an object "
+        "over all histories of set_filetype/load/save up to the bound and exports "
+        "the format-string grammar table (every token sequence of <= 3 tokens with "
+        "the verdict of the grammar automaton): %d token sequences are replayed "
+        "through vnadata_set_format / get_format and %d set/load/save histories "
+        "through one object, validated against FileFmtStickTrace."
         % (len(table["rows"]),
            "a stratified seeded sample" if c.tier == "quick" else "every row",
-           stats["files_read"], stats["loads_compared"]))
+           stats["files_read"], stats["loads_compared"],
+           xstats["grammar_rows"], xstats["histories"]))
     c.cov["trusted_base"] = [
         "TLC 1.8", "FileFmt.tla transcription of vnadata(3) save/load rules",
         "harness/tsread.py, npdread.py (independent readers from the format "
